@@ -234,6 +234,7 @@ class ConditionalEffectsRemover(engines.engine.Engine, CompilerMixin):
                 new_action.clear_effects()
                 for e in action.unconditional_effects:
                     new_action._add_effect_instance(e.clone())
+                conflicting_effects = False
                 for i, e in enumerate(cond_effects):
                     if i in p:
                         # positive precondition
@@ -250,12 +251,16 @@ class ConditionalEffectsRemover(engines.engine.Engine, CompilerMixin):
                         try:
                             new_action._add_effect_instance(ne)
                         except UPConflictingEffectsException:
-                            continue
+                            conflicting_effects = True
+                            break
                     else:
                         # negative precondition
                         new_action.add_precondition(
                             env.expression_manager.Not(e.condition)
                         )
+                if conflicting_effects:
+                    # the original action is not applicable where these effects fire together
+                    continue
                 # new action is created, then is checked if it has any impact and if it can be simplified
                 if len(new_action.effects) > 0:
                     (
@@ -281,6 +286,7 @@ class ConditionalEffectsRemover(engines.engine.Engine, CompilerMixin):
                 for t, el in action.unconditional_effects.items():
                     for e in el:
                         new_action._add_effect_instance(t, e.clone())
+                conflicting_effects = False
                 for i, (e, t) in enumerate(cond_effects_timing):
                     if i in p:
                         # positive precondition
@@ -297,12 +303,15 @@ class ConditionalEffectsRemover(engines.engine.Engine, CompilerMixin):
                         try:
                             new_action._add_effect_instance(t, ne)
                         except UPConflictingEffectsException:
-                            continue
+                            conflicting_effects = True
+                            break
                     else:
                         # negative precondition
                         new_action.add_condition(
                             t, env.expression_manager.Not(e.condition)
                         )
+                if conflicting_effects:
+                    continue
                 # new action is created, then is checked if it has any impact and if it can be simplified
                 if len(new_action.effects) > 0:
                     (
